@@ -20,7 +20,7 @@ Line protocol of the C11 driver (one output line per input line).
 
 Worker-side run (chanworker): the spec is a FIFO of unanswered request ids.
   wstart <buffer> <max> <sndbuf>           -> started
-  wreq <seq> <idlen>                       -> sent
+  wreq <seq> <idlen>                       -> sent      (not expected to be answered when idlen + 32 > ceiling)
   wread <k>                                -> got <seq,seq,..|->    (the next k outstanding, in request order)
   wstop                                    -> alive left=<n>
 
@@ -67,6 +67,7 @@ structure DState where
   sys : Sys
   table : List (Bytes × String)   -- payload ↦ message id
   wq : List Nat := []             -- worker-side spec: requests not answered yet
+  wmax : Nat := 0                 -- worker-side run: the channel's ceiling
 
 def DState.decodes (d : DState) (p : Bytes) : Bool := d.table.any fun e => e.1 == p
 
@@ -118,11 +119,17 @@ def stepLine (d : DState) (line : String) : DState × List String :=
     match k.toNat? with
     | some k => apply d (.deliver k)
     | none => (d, ["bad-op"])
-  | ["wstart", _, _, _] => ({ d with wq := [] }, ["started"])
-  | ["wreq", i, _] =>
-    match i.toNat? with
-    | some i => ({ d with wq := (wstep d.wq (.req i)).1 }, ["sent"])
-    | none => (d, ["bad-op"])
+  | ["wstart", b, m, _] =>
+    match b.toNat?, m.toNat? with
+    | some b, some m => ({ d with wq := [], wmax := Nat.max b m }, ["started"])
+    | _, _ => (d, ["bad-op"])
+  | ["wreq", i, len] =>
+    match i.toNat?, len.toNat? with
+    | some i, some len =>
+      -- a request whose answer (id + up to 32 bytes of framing/status/content) cannot fit
+      -- the ceiling cannot be answered over this channel: the spec expects no answer to it
+      if len + 32 ≤ d.wmax then ({ d with wq := (wstep d.wq (.req i)).1 }, ["sent"]) else (d, ["sent"])
+    | _, _ => (d, ["bad-op"])
   | ["wread", k] =>
     match k.toNat? with
     | some k =>
